@@ -10,6 +10,8 @@ claimed = {
  "C06": ("fault_enumeration", "§5 C06", "the real WAL Writer produces seeded logs under the simulator; every truncation offset and dense single-byte corruptions of every file are fed to the real Reader/Recovery; oracle: returned entries are an in-order subsequence of the appended entries (with database), complete entries before a truncation point are all returned, nothing altered or fabricated, no panic"),
  "C08": ("fault_enumeration", "§5 C08", "seeded sequences of LocalBackend operations with adversarial keys routed through the real validators; the complete single-fault space (each mutating fs op x crash-before/after, torn write, EIO, ENOSPC) of each sequence is executed; oracle: every fs operation stays inside the root, every non-staging file holds the complete content of some write"),
  "C13": ("exploration", "§5 C13", "seeded source trees backed up and restored by the real backup.Manager under seeded file-system faults, remote-backend style failures, a concurrent deleter and process death; oracle: restore of a completed backup is byte-identical or does not report success; skipped files are recorded in the manifest"),
+ "C09": ("fault_enumeration", "§5 C09", "partitions of small Parquet files compacted by the real Manager/Job/ManifestManager/DuckDB with the exec boundary run in-process; per case every mutating storage operation of the targeted job is a kill / pod-crash / storage-error point (capped), followed by fault-free recovery cycles; oracle: row multiset preserved (dedup collapses equal (tags,time) keys only with metadata), no input removed before its rows are in a complete output"),
+ "C11": ("exploration", "§5 C11", "real RetentionHandler over seeded file layouts around the cutoff (sim clock), interleaved with compaction cycles, writes, dry runs, storage delete/list errors, crashes and clock jumps; oracle: no row at or after the cutoff removed, nothing outside the policy scope removed, no entirely old file left after a run that reported success, dry run changes nothing and reports what a real run deletes"),
  "C12": ("fault_enumeration", "§5 C12", "seeded tier-migration cases on the real Manager/Migrator/MetadataStore with two LocalBackends; per case every mutating storage/metadata step of the first cycle is a crash point (capped, strided), plus step failures (fs errors, SQLITE_BUSY), restarts and reconciliation; oracle: every file complete in some tier at every instant, and after a fault-free cycle the real query-layer read expression sees each row exactly once"),
  "C20": ("exploration", "§5 C20", "seeded histories of token/org/team/role/permission/membership changes and checks (single, batched, middleware) on the real AuthManager/RBACManager over SQLite, direct and cluster-apply mode, tiny caches, clock advances, raced mutations; oracle: each check equals a cache-free evaluation of the real policy code on the same SQLite state, cross-checked by an independent evaluator"),
  "C21": ("exploration", "§5 C21", "one mutator (revoke/delete/rotate/expire) against 1-4 verifier tasks on one token under seeded schedules with a scheduler-visible single DB connection; oracle: no verification invoked after the mutation returned (or after expiry) succeeds with the old value"),
